@@ -227,8 +227,28 @@ pub fn run(args: &[&str]) -> Option<String> {
     let fin = answers(&host.snapshot(), &queries);
     finals.push(if fin.iter().any(|a| a.is_none()) { "cancel".into() } else if fin == tail_expected[final_k] { "ok".into() } else { "wrong".into() });
     let f = finals.iter().find(|x| *x != "ok").cloned().unwrap_or_else(|| "ok".to_string());
+    // a module is added to the package the way a server does it for a new file of a known package (file content and source
+    // roots; the package graph is not set again): a snapshot taken afterwards sees the grown workspace - the uses of `early`
+    // and `uses` in the new module included - like a host that is given the grown workspace in one go
+    let mut grown = "ok".to_string();
+    if let Some((ch, fresh)) = ide_cmd::grow(
+        "/w/p/src/zz_added.gleam",
+        "import m0\n\npub fn extra() {\n  let v = m0.early()\n  m0.uses()\n  v\n}\n",
+        file,
+        &tail_texts[final_k],
+    ) {
+        host.apply_change(ch);
+        let got = answers(&host.snapshot(), &queries);
+        let want = answers(&fresh.snapshot(), &queries);
+        if got.iter().any(|a| a.is_none()) {
+            grown = "cancel".into();
+        } else if got != want {
+            grown = "wrong".into();
+        }
+    }
     let mut out = log.lock().unwrap().clone();
     out.push(format!("F:{last}:{f}"));
+    out.push(format!("G:{grown}"));
     out.push(format!("T:{cold}"));
     if panicked {
         out.push("P".into());
